@@ -7,6 +7,7 @@ import (
 	"go/constant"
 	"go/token"
 	"go/types"
+	"os"
 	"strings"
 
 	"golang.org/x/tools/go/ssa"
@@ -341,7 +342,9 @@ func (ex *Exec) load(st *State, p *Ptr) Val {
 		if c.boxed {
 			hn, hs := vc.boxHeap(c.sort)
 			base := Term{app("select", vc.heapGet(st, hn, hs).S, c.boxRef.S), c.sort}
-			return tv(vc.readPath(base, p.Path))
+			r := tv(vc.readPath(base, p.Path))
+			r.Prov = p
+			return r
 		}
 		v, ok := st.cells[c]
 		if !ok {
@@ -743,6 +746,9 @@ func (ex *Exec) run(fr *Frame, b *ssa.BasicBlock, i int, pred *ssa.BasicBlock, s
 	vc := ex.vc
 	if len(vc.fatal) > 0 || vc.paths > vc.maxPaths {
 		return
+	}
+	if traceOn && vc.collecting == 0 && i <= 0 {
+		fmt.Fprintf(os.Stderr, "TRACE %s block %d (%s) pc=%d\n", fr.fn.Name(), b.Index, b.Comment, len(st.pc))
 	}
 	if st.colBody != nil && st.colFrame == fr.id && !st.colBody[b] {
 		return
@@ -1226,7 +1232,11 @@ func (ex *Exec) unop(fr *Frame, x *ssa.UnOp, st *State) {
 			fr.vals[x] = tv(vc.fresh("load", vc.sorts.SortOf(x.Type())))
 			return
 		}
-		fr.vals[x] = ex.load(st, p)
+		lv := ex.load(st, p)
+		if lv.K == VTerm {
+			ex.assumeIntRange(st, lv.T, x.Type())
+		}
+		fr.vals[x] = lv
 	case token.NOT:
 		fr.vals[x] = tv(Term{not(ex.toTerm(st, v, nil).S), SBool})
 	case token.SUB:
@@ -1598,3 +1608,23 @@ func (vc *VC) ghostInitName(st *State, g, sort string) string {
 	vc.declare(init, sort)
 	return init
 }
+
+// assumeIntRange: a value of a fixed-width integer type lies in that type's range (a type invariant of Go).
+func (ex *Exec) assumeIntRange(st *State, t Term, ty types.Type) {
+	if t.Sort != SInt {
+		return
+	}
+	if _, ok := parseSmallInt(t.S); ok {
+		return
+	}
+	if lo, hi, ok := intKindRange(ty); ok {
+		if lo == "0" {
+			st.assume(app("<=", "0", t.S))
+			st.assume(app("<=", t.S, hi))
+		} else {
+			st.assume(and(app("<=", lo, t.S), app("<=", t.S, hi)))
+		}
+	}
+}
+
+var traceOn = os.Getenv("GOVC_TRACE") != ""
